@@ -30,6 +30,11 @@ FILES = {
     "const_a.py": "API_TIMEOUT = 30\n",
     "const_b.py": "TIMEOUT_API = 30\n",
     "const_c.py": "API_TIMEOUTS = 30\n",
+    # one function called with a small set of string values from four places: the message lists the other call sites
+    "call_a.py": "from svc import set_mode\n\n\ndef start_a():\n    set_mode(\"fast\")\n",
+    "call_b.py": "from svc import set_mode\n\n\ndef start_b():\n    set_mode(\"slow\")\n",
+    "call_c.py": "from svc import set_mode\n\n\ndef start_c():\n    set_mode(\"fast\")\n",
+    "call_d.py": "from svc import set_mode\n\n\ndef start_d():\n    set_mode(\"slow\")\n",
     "scanner.py": "import regex as rx\n\n\ndef scan(items):\n    out = []\n    for it in items:\n        if rx.search('a+', it):\n            out.append(it)\n    return out\n",
 }
 VARIANTS = {
